@@ -65,16 +65,73 @@ Theorem C19_commit_preserves_view : forall c a, okc c -> lookup (commit c) a = l
 Proof. exact lookup_commit. Qed.
 Print Assumptions C19_commit_preserves_view.
 
+(* ---- recovered panics and corruptedState ---- *)
+(* without a panic point the panic-aware function is TransactionGroup *)
+Theorem C19_no_panic : forall E ev g lf, transaction_group_p E ev g lf None = transaction_group E ev g lf.
+Proof. exact tgp_none. Qed.
+Print Assumptions C19_no_panic.
+
+(* a panic before the commit point, in any transaction of the loop: clean rejection, the
+   evaluator is exactly as before and still usable *)
+Theorem C19_panic_before_commit_clean : forall E ev g lf i,
+  ev_corrupt ev = false -> g <> [] -> (i < List.length g)%nat ->
+  exists e, transaction_group_p E ev g lf (Some (PLoop i)) = (ev, Err e).
+Proof. exact panic_before_commit_clean. Qed.
+Print Assumptions C19_panic_before_commit_clean.
+
+(* a panic from the commit point on (after the Payset append and any number k of
+   commitToParent steps) marks the evaluator corrupted -- unless the group had failed earlier *)
+Theorem C19_panic_marks_corrupted : forall E ev g lf k ev' r,
+  transaction_group_p E ev g lf (Some (PCommit k)) = (ev', r) ->
+  (exists e, r = Err e /\ ev' = ev) \/ r = Ok tt /\ g = [] /\ ev' = ev \/ (r = Err E_PANIC /\ ev_corrupt ev' = true).
+Proof. exact panic_marks_corrupted. Qed.
+Print Assumptions C19_panic_marks_corrupted.
+
+(* a corrupted evaluator refuses every TransactionGroup and GenerateBlock call, unchanged *)
+Theorem C19_corrupted_refuses : forall E ev,
+  ev_corrupt ev = true ->
+  (forall g lf pp, transaction_group_p E ev g lf pp = (ev, Err E_CORRUPT)) /\
+  (forall g lf, transaction_group E ev g lf = (ev, Err E_CORRUPT)) /\
+  (forall expired absent, generate_block E ev expired absent = Err E_CORRUPT).
+Proof. exact corrupted_refuses. Qed.
+Print Assumptions C19_corrupted_refuses.
+
+(* every call, whatever panics: whole group, or untouched, or corrupted *)
+Theorem C19_call_trichotomy : forall E ev g lf pp ev' r,
+  transaction_group_p E ev g lf pp = (ev', r) ->
+  (r = Ok tt /\ transaction_group E ev g lf = (ev', Ok tt)) \/
+  (exists e, r = Err e /\ ev' = ev) \/
+  (r = Err E_PANIC /\ ev_corrupt ev' = true).
+Proof. exact tgp_trichotomy. Qed.
+Print Assumptions C19_call_trichotomy.
+
+(* no block with a half-applied group: after any sequence of calls with any panics, an
+   evaluator GenerateBlock still accepts is in a state reached by whole accepted groups *)
+Theorem C19_uncorrupted_means_whole_groups : forall E ev0 calls,
+  ev_corrupt (run_calls E ev0 calls) = false -> whole E ev0 (run_calls E ev0 calls).
+Proof. exact uncorrupted_means_whole_groups. Qed.
+Print Assumptions C19_uncorrupted_means_whole_groups.
+
+Theorem C19_generate_needs_uncorrupted : forall E ev expired absent ev',
+  generate_block E ev expired absent = Ok ev' -> ev_corrupt ev = false.
+Proof. exact generate_needs_uncorrupted. Qed.
+Print Assumptions C19_generate_needs_uncorrupted.
+
 (* the oracle on the implementation's observations *)
 Theorem C19_spec_ok_sound : forall k, spec_ok_c19 k = true ->
-  forall pre g post, k_groups k = pre ++ g :: post ->
-    g_code g <> 0 -> g_snap g = last (map g_snap pre) (k_start k).
+  (forall pre g post, k_groups k = pre ++ g :: post ->
+     let before := last (map g_snap pre) (k_start k) in
+     (s_corrupt before = true -> g_code g = E_CORRUPT /\ g_snap g = before) /\
+     (s_corrupt before = false -> g_code g <> 0 -> s_corrupt (g_snap g) = false -> g_snap g = before)) /\
+  (s_corrupt (last_snap k) = true -> k_endcode k = E_CORRUPT).
 Proof. exact spec_ok_c19_sound. Qed.
 Print Assumptions C19_spec_ok_sound.
 
 Theorem C19_group_step_ok_sound : forall sink before g, group_step_ok sink before g = true ->
-  (g_code g <> 0 -> g_snap g = before) /\
-  (g_code g = 0 ->
+  (s_corrupt before = true -> g_code g = E_CORRUPT /\ g_snap g = before) /\
+  (s_corrupt before = false -> g_code g <> 0 -> s_corrupt (g_snap g) = false -> g_snap g = before) /\
+  (s_corrupt before = false -> g_code g = 0 ->
+     s_corrupt (g_snap g) = false /\
      s_payset (g_snap g) = s_payset before + N.of_nat (List.length (g_txns g)) /\
      s_txncount before + N.of_nat (List.length (g_txns g)) <= s_txncount (g_snap g) /\
      s_txids (g_snap g) = s_txids before ++ map (fun tx => (t_txid tx, t_lv tx)) (g_txns g) /\
@@ -88,3 +145,13 @@ Example C19_instance :
   transaction_group (ex_E true true) ex_ev0 ex_bad_group 0 = (ex_ev0, Err E_OVERSPEND) /\
   l_accts (c_top (fst (group_body (ex_E true true) ex_bad_group 0 (child (ev_cow ex_ev0))))) <> [].
 Proof. exact group_atomic_instance. Qed.
+
+(* non-vacuity: the same kind of group interrupted after MergeAccounts: Payset grew, accounts
+   are merged, the txids are not -- and the evaluator is corrupted and refuses from then on *)
+Example C19_corrupted_instance :
+  let g := [mkTxn 3 1000 5 20 0 true true 3 0 31 1000000 0 (BPay 5 1000000 0)] in
+  let r := transaction_group_p (ex_E true true) ex_ev0 g 0 (Some (PCommit 1)) in
+  snd r = Err E_PANIC /\ ev_corrupt (fst r) = true /\ ev_payset (fst r) = [31] /\
+  l_txids (c_top (ev_cow (fst r))) = [] /\ a_algos (lookup (ev_cow (fst r)) 5) = 1000000 /\
+  transaction_group (ex_E true true) (fst r) g 0 = (fst r, Err E_CORRUPT).
+Proof. vm_compute. repeat split. Qed.
